@@ -37,8 +37,9 @@ def c13(work, tier, seed):
     # to another one started from the very same configuration
     for store in ("cookie", "file"):
         for ko in ({"sess": "-", "sessenc": "-"}, {"sess": "K" * 31, "sessenc": "E" * 31}, {"sess": "K" * 33, "sessenc": "E" * 33}):
-            cfg = dict(base(store), keyOverride=ko, sharedEnv=True)
-            for m in ("none", "foreign-sameconfig", "foreign-sameconfig"):
+            for m in ("none", "foreign-sameconfig", "foreign-sameconfig-later"):
+                # (one machine per script: the two gateways of a script are the only ones on it)
+                cfg = dict(base(store), keyOverride=ko, sharedEnv="m%d" % len(scripts))
                 scripts.append({"id": "ck%04d" % len(scripts), "kind": "cookie", "cfg": cfg, "mut": m, "pos": 0, "user": rng.choice(["user1", "bob@corp.example"])})
     if slow:
         # one slow script at the head of every chunk the driver forms per configuration
